@@ -440,9 +440,9 @@ func TestDriveC19(t *testing.T) {
 	// One command per object whose behaviour is switched through a file between the calls.
 	if shard == 0 {
 		mfile := filepath.Join(dir, "wrapmode")
-		wrap := mk("wrap.sh", fmt.Sprintf("#!/bin/sh\ncase \"$(cat %s)\" in\n ok) echo 42;;\n garbage) echo 'n/a';;\n digits) echo '503 Service Unavailable';;\n empty) ;;\n exit3) echo partial; echo problem >&2; exit 3;;\n errnonl) printf 'bus busy' >&2; exit 1;;\n okexit) echo 0; exit 3;;\n sleep) sleep 30;;\n grandchild) sleep 6 &\n echo 5;;\n nan) echo nan;;\nesac\n", mfile), 0755)
+		wrap := mk("wrap.sh", fmt.Sprintf("#!/bin/sh\ncase \"$(cat %s)\" in\n ok) echo 42;;\n garbage) echo 'n/a';;\n blank) echo ' ';;\n crlf) printf '\\r\\n';;\n tab) printf '\\t \\n';;\n digits) echo '503 Service Unavailable';;\n empty) ;;\n exit3) echo partial; echo problem >&2; exit 3;;\n errnonl) printf 'bus busy' >&2; exit 1;;\n okexit) echo 0; exit 3;;\n sleep) sleep 30;;\n grandchild) sleep 6 &\n echo 5;;\n nan) echo nan;;\nesac\n", mfile), 0755)
 		setMode := func(m string) { must(os.WriteFile(mfile, []byte(m), 0644)) }
-		wmodes := []string{"ok", "garbage", "digits", "empty", "exit3", "errnonl", "okexit", "sleep", "grandchild", "nan"}
+		wmodes := []string{"ok", "garbage", "digits", "empty", "exit3", "errnonl", "okexit", "sleep", "grandchild", "nan", "blank", "crlf", "tab"}
 		emit := func(kind, m string, outcome string, dur time.Duration, val string) {
 			rec.Emit(Ev{"ev": "Call", "mode": kind + ":" + m, "timeout": 2000, "dur": int(dur / time.Millisecond),
 				"outcome": outcome, "outlen": 0, "trimmed": true, "sample": val})
